@@ -80,6 +80,7 @@ class ReferenceImpl(Derivable, Impl):
     def on_inherit(self, updater, bases):
 
         self.model.clear_obj(self)
+        self.model.clear_attr_referrers(self)   # Reached by attribute access
         self.refmode = bases[0].refmode     # The base may have been replaced
         if bases[0].has_interface():
 
